@@ -139,11 +139,24 @@ def r1_r2_r5_search(repo, rep, name):
       # another name: an alias or a copy of the same object taken after the control series was set is the same state
       sx = rd.expand(snode, S_expr, aliases=True)[0]
       sx, _c = strip_deepcopy(sx)
-      d_s = rd.single_def(snode, S_expr.id) if isinstance(S_expr, ast.Name) else None
-      d_d = rd.single_def(dn, D)
-      if d_s is not None and d_d is not None and d_s.node is not d_d.node and d_s.how == 'assign' and isinstance(d_s.value, ast.Call) \
-          and norm(d_s.value.func).split('.')[-1] == 'TBRMMDiagnostics':
+      def root_ctor(at, nm, hops=5):
+        """Definition node of the constructor call the object named `nm` descends from, through aliases and (deep) copies."""
+        d_ = rd.single_def(at, nm)
+        while d_ is not None and d_.how == 'assign' and d_.value is not None and hops > 0:
+          v_, _cp = strip_deepcopy(d_.value)
+          if isinstance(v_, ast.Name):
+            d_, hops = rd.single_def(d_.node, v_.id), hops - 1
+            continue
+          if isinstance(v_, ast.Call) and norm(v_.func).split('.')[-1] == 'TBRMMDiagnostics':
+            return d_.node
+          return None
+        return None
+      r_s = root_ctor(snode, S_expr.id) if isinstance(S_expr, ast.Name) else None
+      r_d = root_ctor(dn, D)
+      if r_s is not None and r_d is not None and r_s is not r_d:
         same_state = False          # the score is computed from another, separately constructed diagnostics object
+      elif r_s is not None and r_s is r_d:
+        same_state = None           # copies / aliases of one object: whether both were taken in the same state is not followed
       elif isinstance(sx, ast.Name) and sx.id == D:
         same_state = None if xs is None else (xs in view.doms.get(snode, ()) or None)
       elif not isinstance(sx, ast.Name):
